@@ -1,3 +1,584 @@
 import Tough.Model.Client
+import Tough.Proofs.Sig
 namespace Tough.Client
+open Tough.Sig
+
+/-! ## Inversion lemmas: what a successful step of the update cycle has checked -/
+
+/-- the part of the state that rollback protection reads -/
+def St.slots (st : St) : Slot Timestamp × Slot Snapshot × Slot TargetsDoc := (st.ds.ts, st.ds.snap, st.ds.tgt)
+
+def St.reqs (st : St) : List FileName :=
+  st.log.filterMap fun e => match e with | .req f => some f | _ => none
+
+theorem systemTime_ok {cfg : Config} {st st' : St} {t : Int} (h : systemTime cfg st = (.ok t, st')) :
+    t = cfg.now ∧ (∀ t0, st.ds.time = some t0 → t0 ≤ cfg.now) ∧ st'.ds.time = some cfg.now ∧
+    st'.slots = st.slots ∧ st'.reqs = st.reqs := by
+  unfold systemTime at h
+  split at h
+  · rename_i t0 ht
+    split at h
+    · simp at h
+    · rename_i hlt
+      simp only [Prod.mk.injEq, Except.ok.injEq] at h
+      obtain ⟨rfl, rfl⟩ := h
+      refine ⟨rfl, ?_, rfl, rfl, ?_⟩
+      · intro t1 h1; rw [ht] at h1; cases h1; omega
+      · simp [St.reqs, List.filterMap_cons]
+  · rename_i ht
+    simp only [Prod.mk.injEq, Except.ok.injEq] at h
+    obtain ⟨rfl, rfl⟩ := h
+    refine ⟨rfl, ?_, rfl, rfl, ?_⟩
+    · intro t1 h1; rw [ht] at h1; cases h1
+    · simp [St.reqs, List.filterMap_cons]
+
+theorem systemTime_err {cfg : Config} {st st' : St} {e : Err} (h : systemTime cfg st = (.error e, st')) :
+    e = .clock ∧ st' = st ∧ ∃ t0, st.ds.time = some t0 ∧ cfg.now < t0 := by
+  unfold systemTime at h
+  split at h
+  · rename_i t0 ht
+    split at h
+    · rename_i hlt
+      simp only [Prod.mk.injEq, Except.error.injEq] at h
+      exact ⟨h.1.symm, h.2.symm, t0, ht, hlt⟩
+    · simp at h
+  · simp at h
+
+theorem expiryGate_ok {cfg : Config} {r : RoleType} {e : Int} {st st' : St}
+    (h : expiryGate cfg r e st = (.ok (), st')) :
+    (cfg.safe = true → cfg.now ≤ e ∧ ∀ t0, st.ds.time = some t0 → t0 ≤ cfg.now) ∧
+    st'.slots = st.slots ∧ st'.reqs = st.reqs := by
+  unfold expiryGate at h
+  by_cases hs : cfg.safe = true
+  · simp only [hs, ↓reduceIte] at h
+    unfold checkExpired at h
+    split at h
+    · simp at h
+    · rename_i t st1 hst
+      obtain ⟨rfl, h2, _, h4, h5⟩ := systemTime_ok hst
+      split at h
+      · rename_i hle
+        simp only [Prod.mk.injEq, true_and] at h
+        subst h
+        exact ⟨fun _ => ⟨hle, h2⟩, h4, h5⟩
+      · simp at h
+  · simp only [hs] at h
+    simp only [Bool.false_eq_true, ↓reduceIte, Prod.mk.injEq, true_and] at h
+    subst h
+    exact ⟨fun h => absurd h hs, rfl, rfl⟩
+
+theorem expiryGate_err {cfg : Config} {r : RoleType} {e : Int} {st st' : St} {err : Err}
+    (h : expiryGate cfg r e st = (.error err, st')) :
+    cfg.safe = true ∧ (err = .clock ∨ (err = .expired r ∧ e < cfg.now)) := by
+  unfold expiryGate at h
+  by_cases hs : cfg.safe = true
+  · refine ⟨hs, ?_⟩
+    simp only [hs, ↓reduceIte] at h
+    unfold checkExpired at h
+    split at h
+    · rename_i e' st1 hst
+      simp only [Prod.mk.injEq, Except.error.injEq] at h
+      exact Or.inl (h.1 ▸ (systemTime_err hst).1)
+    · rename_i t st1 hst
+      obtain ⟨rfl, _⟩ := systemTime_ok hst
+      split at h
+      · simp at h
+      · rename_i hle
+        simp only [Prod.mk.injEq, Except.error.injEq] at h
+        exact Or.inr ⟨h.1.symm, by omega⟩
+  · simp [hs] at h
+
+theorem reqs_req (st : St) (f : FileName) : (st.req f).reqs = f :: st.reqs := by
+  simp [St.req, St.reqs, List.filterMap_cons]
+
+structure TsOk (cfg : Config) (srv : Server) (root : Root) (st : St) (ts : Timestamp) (st' : St) : Prop where
+  fetched : fetchFile srv .timestamp cfg.limits.maxTimestampSize none = .ok (.timestamp ts)
+  verified : rootVerify root .timestamp ts.msg ts.sigs = true
+  noRollback : ∀ old, st.ds.ts = .doc old → rootVerify root .timestamp old.msg old.sigs = true →
+    old.version ≤ ts.version
+  fresh : cfg.safe = true → cfg.now ≤ ts.expires
+  clockOk : cfg.safe = true → ∀ t0, st.ds.time = some t0 → t0 ≤ cfg.now
+  storedTs : st'.ds.ts = .doc ts
+  storedSnap : st'.ds.snap = st.ds.snap
+  storedTgt : st'.ds.tgt = st.ds.tgt
+  reqs : st'.reqs = .timestamp :: st.reqs
+
+theorem loadTimestamp_ok {cfg : Config} {srv : Server} {root : Root} {st st' : St} {ts : Timestamp}
+    (h : loadTimestamp cfg srv root st = (.ok ts, st')) : TsOk cfg srv root st ts st' := by
+  unfold loadTimestamp at h
+  simp only at h
+  split at h
+  · simp at h
+  · rename_i ts0 hf
+    split at h
+    · simp at h
+    · rename_i hv
+      split at h
+      · simp at h
+      · rename_i hrb
+        split at h
+        · simp at h
+        · rename_i st1 hg
+          simp only [Prod.mk.injEq, Except.ok.injEq] at h
+          obtain ⟨rfl, rfl⟩ := h
+          obtain ⟨g1, g2, g3⟩ := expiryGate_ok hg
+          simp only [St.slots, St.req, Prod.mk.injEq] at g2
+          refine ⟨hf, by simpa using hv, ?_, fun hs => (g1 hs).1, fun hs => (g1 hs).2, rfl, g2.2.1, g2.2.2, ?_⟩
+          · intro old ho hvo
+            simp only [St.req, storedBlocks, ho, hvo, Bool.true_and, decide_eq_true_eq] at hrb
+            omega
+          · simp only [St.reqs, List.filterMap_cons] at g3 ⊢
+            simp only [St.req, List.filterMap_cons] at g3
+            exact g3
+  · simp at h
+
+structure SnapOk (cfg : Config) (srv : Server) (root : Root) (ts : Timestamp) (st : St) (sn : Snapshot) (st' : St) : Prop where
+  pinned : ∃ m, ts.snapshotMeta = some m ∧
+    fetchFile srv (.snapshot (versioned root.consistent m.version))
+      (m.length.getD cfg.limits.maxSnapshotSize) m.hash = .ok (.snapshot sn) ∧
+    sn.version = m.version ∧
+    st'.reqs = .snapshot (versioned root.consistent m.version) :: st.reqs
+  verified : rootVerify root .snapshot sn.msg sn.sigs = true
+  noRollback : ∀ old, st.ds.snap = .doc old → rootVerify root .snapshot old.msg old.sigs = true →
+    snapshotRollback old sn = none
+  fresh : cfg.safe = true → cfg.now ≤ sn.expires
+  clockOk : cfg.safe = true → ∀ t0, st.ds.time = some t0 → t0 ≤ cfg.now
+  storedSnap : st'.ds.snap = .doc sn
+  storedTs : st'.ds.ts = st.ds.ts
+  storedTgt : st'.ds.tgt = st.ds.tgt
+
+theorem loadSnapshot_ok {cfg : Config} {srv : Server} {root : Root} {ts : Timestamp} {st st' : St} {sn : Snapshot}
+    (h : loadSnapshot cfg srv root ts st = (.ok sn, st')) : SnapOk cfg srv root ts st sn st' := by
+  unfold loadSnapshot at h
+  split at h
+  · simp at h
+  · rename_i m hm
+    simp only at h
+    split at h
+    · simp at h
+    · rename_i sn0 hf
+      split at h
+      · simp at h
+      · rename_i hver
+        split at h
+        · simp at h
+        · rename_i hv
+          split at h
+          · simp at h
+          · rename_i hrb
+            split at h
+            · simp at h
+            · rename_i st1 hg
+              simp only [Prod.mk.injEq, Except.ok.injEq] at h
+              obtain ⟨rfl, rfl⟩ := h
+              obtain ⟨g1, g2, g3⟩ := expiryGate_ok hg
+              simp only [St.slots, St.req, Prod.mk.injEq] at g2
+              refine ⟨⟨m, hm, hf, by simpa using hver, ?_⟩, by simpa using hv, ?_, fun hs => (g1 hs).1,
+                fun hs => (g1 hs).2, rfl, g2.1, g2.2.2⟩
+              · simp only [St.reqs, List.filterMap_cons] at g3 ⊢
+                simp only [St.req, List.filterMap_cons] at g3
+                exact g3
+              · intro old ho hvo
+                simp only [St.req, storedSnapshotBlocks, ho, hvo, ↓reduceIte] at hrb
+                exact hrb
+    · simp at h
+
+/-! ### The root chain -/
+
+/-- one accepted hop of the walk: the file named after the next version parses to `b`, `b` is signed
+by a threshold of `a`'s root keys and of its own, and its version is higher -/
+structure Hop (cfg : Config) (srv : Server) (a b : Root) : Prop where
+  served : fetchFile srv (.rootV (a.version + 1)) cfg.limits.maxRootSize none = .ok (.root b)
+  byOld : rootVerify a .root b.msg b.sigs = true
+  byNew : rootVerify b .root b.msg b.sigs = true
+  higher : a.version < b.version
+
+inductive Chain (cfg : Config) (srv : Server) : Root → Root → Prop
+  | refl (a : Root) : Chain cfg srv a a
+  | step {a b c : Root} : Hop cfg srv a b → Chain cfg srv b c → Chain cfg srv a c
+
+theorem Chain.version_le {cfg : Config} {srv : Server} {a b : Root} (h : Chain cfg srv a b) :
+    a.version ≤ b.version := by
+  induction h with
+  | refl => exact Nat.le_refl _
+  | step hop _ ih => have := hop.higher; omega
+
+theorem rootStep_next {cfg : Config} {srv : Server} {a b : Root} (h : rootStep cfg srv a = .next b) :
+    Hop cfg srv a b := by
+  unfold rootStep at h
+  split at h <;> try (simp at h)
+  rename_i new hf
+  split at h
+  · simp at h
+  · rename_i h1
+    split at h
+    · simp at h
+    · rename_i h2
+      split at h
+      · simp at h
+      · rename_i h3
+        split at h
+        · simp at h
+        · rename_i h4
+          simp only [RootStep.next.injEq] at h
+          subst h
+          exact ⟨hf, by simpa using h1, by simpa using h2, by omega⟩
+
+/-- the walk ends at `a`: version `a.version + 1` is not available, or the file served under that
+name is a correctly double-signed root carrying the trusted version itself -/
+def Stops (cfg : Config) (srv : Server) (a : Root) : Prop := rootStep cfg srv a = .stop
+
+theorem stops_iff {cfg : Config} {srv : Server} {a : Root} :
+    Stops cfg srv a ↔
+      (fetchFile srv (.rootV (a.version + 1)) cfg.limits.maxRootSize none = .error .openNotFound ∨
+       fetchFile srv (.rootV (a.version + 1)) cfg.limits.maxRootSize none = .error .openOther ∨
+       fetchFile srv (.rootV (a.version + 1)) cfg.limits.maxRootSize none = .error .midNotFound ∨
+       ∃ b, fetchFile srv (.rootV (a.version + 1)) cfg.limits.maxRootSize none = .ok (.root b) ∧
+         rootVerify a .root b.msg b.sigs = true ∧ rootVerify b .root b.msg b.sigs = true ∧
+         b.version = a.version) := by
+  unfold Stops rootStep
+  split
+  · simp_all
+  · simp_all
+  · simp_all
+  · rename_i e h1 h2 h3 hf
+    simp only [reduceCtorEq, false_iff]
+    rw [hf]
+    rintro (h | h | h | ⟨b, h, _⟩)
+    · cases h; exact h1 rfl
+    · cases h; exact h2 rfl
+    · cases h; exact h3 rfl
+    · cases h
+  · rename_i new hf
+    rw [hf]
+    by_cases v1 : rootVerify a .root new.msg new.sigs = true
+    · by_cases v2 : rootVerify new .root new.msg new.sigs = true
+      · by_cases l : new.version < a.version
+        · simp [v1, v2, l]; omega
+        · by_cases e : new.version = a.version
+          · simp [v1, v2, e]
+          · simp [v1, v2, l, e]
+      · simp [v1, v2]
+    · simp [v1]
+  · rename_i c hc hf
+    rw [hf]
+    simp only [reduceCtorEq, false_iff]
+    rintro (h | h | h | ⟨b, h, _⟩) <;> cases h
+    exact hc b rfl
+
+theorem rootLoop_ok {cfg : Config} {srv : Server} {v0 : Nat} (fuel : Nat) :
+    ∀ {r r' : Root} {st st' : St}, rootLoop cfg srv v0 fuel r st = (.ok r', st') →
+      Chain cfg srv r r' ∧ Stops cfg srv r' ∧ r'.version < v0 + cfg.limits.maxRootUpdates ∧
+      st'.slots = st.slots ∧ st'.ds.time = st.ds.time := by
+  induction fuel with
+  | zero => intro r r' st st' h; simp [rootLoop] at h
+  | succ n ih =>
+    intro r r' st st' h
+    simp only [rootLoop] at h
+    split at h
+    · simp at h
+    · rename_i hlt
+      split at h
+      · rename_i hs
+        simp only [Prod.mk.injEq, Except.ok.injEq] at h
+        obtain ⟨rfl, rfl⟩ := h
+        exact ⟨.refl _, hs, by simpa using hlt, rfl, rfl⟩
+      · simp at h
+      · rename_i new hn
+        obtain ⟨c, s, b, sl, tm⟩ := ih h
+        exact ⟨.step (rootStep_next hn) c, s, b, sl, tm⟩
+
+/-- the number of `N.root.json` requests of the walk never exceeds the configured maximum -/
+theorem rootLoop_reqs {cfg : Config} {srv : Server} {v0 : Nat} (fuel : Nat) :
+    ∀ {r : Root} {st st' : St} {res : Except Err Root}, rootLoop cfg srv v0 fuel r st = (res, st') →
+      v0 ≤ r.version →
+      st'.reqs.length + r.version ≤ st.reqs.length + v0 + cfg.limits.maxRootUpdates ∨ st'.reqs = st.reqs := by
+  induction fuel with
+  | zero => intro r st st' res h _; simp only [rootLoop, Prod.mk.injEq] at h; exact Or.inr (h.2 ▸ rfl)
+  | succ n ih =>
+    intro r st st' res h hv
+    simp only [rootLoop] at h
+    split at h
+    · simp only [Prod.mk.injEq] at h; exact Or.inr (h.2 ▸ rfl)
+    · rename_i hlt
+      have hlt' : r.version < v0 + cfg.limits.maxRootUpdates := by simpa using hlt
+      split at h
+      · simp only [Prod.mk.injEq] at h
+        left; rw [← h.2, reqs_req]; simp only [List.length_cons]; omega
+      · simp only [Prod.mk.injEq] at h
+        left; rw [← h.2, reqs_req]; simp only [List.length_cons]; omega
+      · rename_i new hn
+        have hop := rootStep_next hn
+        have hh := hop.higher
+        rcases ih h (by omega) with hb | hb
+        · left; rw [reqs_req] at hb; simp only [List.length_cons] at hb; omega
+        · left; rw [hb, reqs_req]; simp only [List.length_cons]; omega
+
+theorem rootLoop_no_fuel_error {cfg : Config} {srv : Server} {v0 : Nat} (fuel : Nat) :
+    ∀ {r : Root} {st st' : St}, 1 ≤ fuel → v0 + cfg.limits.maxRootUpdates < r.version + fuel →
+      rootLoop cfg srv v0 fuel r st ≠ (.error .fuel, st') := by
+  induction fuel with
+  | zero => intro r st st' h1 h2; omega
+  | succ n ih =>
+    intro r st st' h1 h2 h
+    simp only [rootLoop] at h
+    split at h
+    · simp at h
+    · rename_i hlt
+      have hlt' : r.version < v0 + cfg.limits.maxRootUpdates := by simpa using hlt
+      split at h
+      · simp at h
+      · rename_i e he
+        simp only [Prod.mk.injEq, Except.error.injEq] at h
+        unfold rootStep at he
+        obtain ⟨h, -⟩ := h
+        subst h
+        split at he <;> (try simp at he) <;> (repeat (split at he <;> try simp at he))
+      · rename_i new hn
+        have hh := (rootStep_next hn).higher
+        exact ih (by omega) (by omega) h
+
+structure RootOk (cfg : Config) (srv : Server) (shipped : Option Root) (st : St) (root : Root) (st' : St) : Prop where
+  shipped : ∃ r0, shipped = some r0 ∧ rootVerify r0 .root r0.msg r0.sigs = true ∧ Chain cfg srv r0 root ∧
+    root.version < r0.version + cfg.limits.maxRootUpdates ∧
+    (st'.slots = st.slots ∨
+      (st'.ds.ts = .absent ∧ st'.ds.snap = .absent ∧ st'.ds.tgt = st.ds.tgt ∧
+        (r0.keysIter .timestamp ≠ root.keysIter .timestamp ∨ r0.keysIter .snapshot ≠ root.keysIter .snapshot))) ∧
+    ((r0.keysIter .timestamp = root.keysIter .timestamp ∧ r0.keysIter .snapshot = root.keysIter .snapshot) →
+      st'.slots = st.slots)
+  stops : Stops cfg srv root
+  fresh : cfg.safe = true → cfg.now ≤ root.expires
+  clockOk : cfg.safe = true → ∀ t0, st.ds.time = some t0 → t0 ≤ cfg.now
+
+theorem loadRoot_ok {cfg : Config} {srv : Server} {shipped : Option Root} {st st' : St} {root : Root}
+    (h : loadRoot cfg srv shipped st = (.ok root, st')) : RootOk cfg srv shipped st root st' := by
+  unfold loadRoot at h
+  split at h
+  · simp at h
+  · rename_i r0
+    split at h
+    · simp at h
+    · rename_i hv
+      split at h
+      · simp at h
+      · rename_i r1 st1 hl
+        obtain ⟨c, s, b, sl, tm⟩ := rootLoop_ok _ hl
+        split at h
+        · simp at h
+        · rename_i st2 hg
+          obtain ⟨g1, g2, g3⟩ := expiryGate_ok hg
+          split at h
+          · rename_i hk
+            simp only [Prod.mk.injEq, Except.ok.injEq] at h
+            obtain ⟨rfl, rfl⟩ := h
+            refine ⟨⟨r0, rfl, by simpa using hv, c, b, Or.inr ⟨rfl, rfl, ?_, ?_⟩, ?_⟩, s, fun hs => (g1 hs).1, ?_⟩
+            · simp only [clearOnline]
+              have := congrArg (·.2.2) g2; have := congrArg (·.2.2) sl; simp only [St.slots] at *; simp_all
+            · simp only [Bool.or_eq_true, bne_iff_ne, ne_eq] at hk; exact hk
+            · intro ⟨e1, e2⟩
+              simp only [Bool.or_eq_true, bne_iff_ne, ne_eq] at hk
+              rcases hk with hk | hk
+              · exact absurd e1 hk
+              · exact absurd e2 hk
+            · intro hs t0 ht; rw [← tm] at ht; exact (g1 hs).2 t0 ht
+          · rename_i hk
+            simp only [Prod.mk.injEq, Except.ok.injEq] at h
+            obtain ⟨rfl, rfl⟩ := h
+            refine ⟨⟨r0, rfl, by simpa using hv, c, b, Or.inl (g2.trans sl), fun _ => g2.trans sl⟩, s,
+              fun hs => (g1 hs).1, ?_⟩
+            intro hs t0 ht; rw [← tm] at ht; exact (g1 hs).2 t0 ht
+
+/-! ### Delegations -/
+
+/-- what was checked about one delegated role `r` of the delegations object `d`, whose metadata is `doc` -/
+structure RoleGood (cfg : Config) (srv : Server) (snap : Snapshot) (consistent : Bool)
+    (d : Deleg) (r : DRole) (doc : TargetsDoc) : Prop where
+  listed : r ∈ d.roles
+  pinned : ∃ m, snap.find (.role r.name) = some m ∧
+    fetchFile srv (.role r.name (versioned consistent m.version))
+      (m.length.getD cfg.limits.maxTargetsSize) none = .ok (.targets doc) ∧
+    doc.version = m.version
+  verified : delegVerify d r.name doc.msg doc.sigs = true
+
+mutual
+/-- every delegated role in the loaded tree passed `RoleGood` under its parent -/
+def Tgt.Good (cfg : Config) (srv : Server) (snap : Snapshot) (consistent : Bool) : Tgt → Prop
+  | .mk doc children =>
+    match doc.deleg with
+    | none => children = .nil
+    | some d => Roles.Good cfg srv snap consistent d children
+def Roles.Good (cfg : Config) (srv : Server) (snap : Snapshot) (consistent : Bool) (d : Deleg) : Roles → Prop
+  | .nil => True
+  | .cons r t rest =>
+    RoleGood cfg srv snap consistent d r (Tgt.doc t) ∧ Tgt.Good cfg srv snap consistent t ∧
+      Roles.Good cfg srv snap consistent d rest
+end
+
+variable {cfg : Config} {srv : Server} {snap : Snapshot} {consistent : Bool}
+
+theorem fetchRoles_ok {d : Deleg} {roles : List DRole} {visited visited' : List Nat} {st st' : St}
+    {loaded : List (DRole × TargetsDoc)} (hsub : ∀ r ∈ roles, r ∈ d.roles)
+    (h : fetchRoles cfg srv snap consistent d roles visited st = (.ok (loaded, visited'), st')) :
+    ∀ p ∈ loaded, RoleGood cfg srv snap consistent d p.1 p.2 := by
+  induction roles generalizing visited st loaded with
+  | nil =>
+    simp only [fetchRoles, Prod.mk.injEq, Except.ok.injEq] at h
+    obtain ⟨⟨rfl, _⟩, _⟩ := h
+    intro p hp; cases hp
+  | cons r rest ih =>
+    simp only [fetchRoles] at h
+    split at h
+    · simp at h
+    · rename_i m hm
+      split at h
+      · simp at h
+      · split at h
+        · simp at h
+        · rename_i doc hf
+          split at h
+          · simp at h
+          · rename_i hv
+            split at h
+            · simp at h
+            · rename_i hver
+              split at h
+              · simp at h
+              · rename_i more vis2 st2 hrec
+                simp only [Prod.mk.injEq, Except.ok.injEq] at h
+                obtain ⟨⟨rfl, rfl⟩, rfl⟩ := h
+                intro p hp
+                rcases List.mem_cons.mp hp with rfl | hp
+                · exact ⟨hsub _ List.mem_cons_self, ⟨m, hm, hf, by simpa using hver⟩, by simpa using hv⟩
+                · exact ih (fun r hr => hsub r (List.mem_cons_of_mem _ hr)) hrec p hp
+        · simp at h
+
+theorem attachRoles_ok {d : Deleg}
+    {recur : Deleg → List Nat → St → Except Err (Roles × List Nat) × St}
+    (hrec : ∀ d' v s rs v' s', recur d' v s = (.ok (rs, v'), s') → Roles.Good cfg srv snap consistent d' rs)
+    {loaded : List (DRole × TargetsDoc)} {visited visited' : List Nat} {st st' : St} {rs : Roles}
+    (hl : ∀ p ∈ loaded, RoleGood cfg srv snap consistent d p.1 p.2)
+    (h : attachRoles recur loaded visited st = (.ok (rs, visited'), st')) :
+    Roles.Good cfg srv snap consistent d rs := by
+  induction loaded generalizing visited st rs with
+  | nil =>
+    simp only [attachRoles, Prod.mk.injEq, Except.ok.injEq] at h
+    obtain ⟨⟨rfl, _⟩, _⟩ := h
+    simp [Roles.Good]
+  | cons p rest ih =>
+    obtain ⟨r, doc⟩ := p
+    simp only [attachRoles] at h
+    split at h
+    · simp at h
+    · rename_i children vis1 st1 hsub
+      split at h
+      · simp at h
+      · rename_i more vis2 st2 hmore
+        simp only [Prod.mk.injEq, Except.ok.injEq] at h
+        obtain ⟨⟨rfl, rfl⟩, rfl⟩ := h
+        simp only [Roles.Good, Tgt.doc, Tgt.Good]
+        refine ⟨hl (r, doc) List.mem_cons_self, ?_, ih (fun p hp => hl p (List.mem_cons_of_mem _ hp)) hmore⟩
+        cases hd : doc.deleg with
+        | none =>
+          simp only [hd, Prod.mk.injEq, Except.ok.injEq] at hsub
+          simp [hsub.1.1]
+        | some d' =>
+          simp only [hd] at hsub
+          exact hrec _ _ _ _ _ _ hsub
+
+theorem loadDelegs_ok (fuel : Nat) : ∀ {d : Deleg} {visited visited' : List Nat} {st st' : St} {rs : Roles},
+    loadDelegs cfg srv snap consistent fuel d visited st = (.ok (rs, visited'), st') →
+    Roles.Good cfg srv snap consistent d rs := by
+  induction fuel with
+  | zero => intro d v v' st st' rs h; simp [loadDelegs] at h
+  | succ n ih =>
+    intro d v v' st st' rs h
+    simp only [loadDelegs] at h
+    split at h
+    · simp at h
+    · rename_i loaded vis1 st1 hf
+      exact attachRoles_ok (fun d' v s rs v' s' hh => ih hh) (fetchRoles_ok (fun r hr => hr) hf) h
+
+structure TgtOk (cfg : Config) (srv : Server) (root : Root) (snap : Snapshot) (st : St) (t : Tgt) (st' : St) : Prop where
+  pinned : ∃ m, snap.find .targets = some m ∧
+    fetchFile srv (.targets (versioned root.consistent m.version))
+      (m.length.getD cfg.limits.maxTargetsSize) m.hash = .ok (.targets (Tgt.doc t)) ∧
+    (Tgt.doc t).version = m.version
+  verified : rootVerify root .targets (Tgt.doc t).msg (Tgt.doc t).sigs = true
+  noRollback : ∀ old, st.ds.tgt = .doc old → rootVerify root .targets old.msg old.sigs = true →
+    old.version ≤ (Tgt.doc t).version
+  fresh : cfg.safe = true → cfg.now ≤ (Tgt.doc t).expires
+  clockOk : cfg.safe = true → ∀ t0, st.ds.time = some t0 → t0 ≤ cfg.now
+  tree : Tgt.Good cfg srv snap root.consistent t
+  valid : t.validate = true
+
+theorem loadTargets_ok {root : Root} {st st' : St} {t : Tgt}
+    (h : loadTargets cfg srv root snap st = (.ok t, st')) : TgtOk cfg srv root snap st t st' := by
+  unfold loadTargets at h
+  split at h
+  · simp at h
+  · rename_i m hm
+    simp only at h
+    split at h
+    · simp at h
+    · rename_i doc hf
+      split at h
+      · simp at h
+      · rename_i hver
+        split at h
+        · simp at h
+        · rename_i hv
+          split at h
+          · simp at h
+          · rename_i hrb
+            split at h
+            · simp at h
+            · rename_i st1 hg
+              obtain ⟨g1, g2, g3⟩ := expiryGate_ok hg
+              simp only [St.slots, St.req, Prod.mk.injEq] at g2
+              split at h
+              · simp at h
+              · rename_i children vis st2 hsub
+                split at h
+                · rename_i hval
+                  simp only [Prod.mk.injEq, Except.ok.injEq] at h
+                  obtain ⟨rfl, rfl⟩ := h
+                  refine ⟨⟨m, hm, hf, by simpa [Tgt.doc] using hver⟩, by simpa [Tgt.doc] using hv, ?_, fun hs => (g1 hs).1,
+                    fun hs => (g1 hs).2, ?_, hval⟩
+                  · intro old ho hvo
+                    simp only [St.req, storedBlocks, ho, hvo, Bool.true_and, decide_eq_true_eq, Tgt.doc] at hrb ⊢
+                    omega
+                  · simp only [Tgt.Good]
+                    cases hd : doc.deleg with
+                    | none =>
+                      simp only [hd, Prod.mk.injEq, Except.ok.injEq] at hsub
+                      simp [hsub.1.1]
+                    | some d =>
+                      simp only [hd] at hsub
+                      exact loadDelegs_ok _ hsub
+                · simp at h
+    · simp at h
+
+/-! ### The whole cycle -/
+
+theorem cycle_ok {root0 : Option Root} {st st' : St} {v : View}
+    (h : cycle cfg srv root0 st = (.ok v, st')) :
+    ∃ st1 st2 st3, RootOk cfg srv root0 st v.root st1 ∧ TsOk cfg srv v.root st1 v.ts st2 ∧
+      SnapOk cfg srv v.root v.ts st2 v.snap st3 ∧ TgtOk cfg srv v.root v.snap st3 v.tgt st' := by
+  unfold cycle at h
+  split at h
+  · simp at h
+  · rename_i root st1 h1
+    split at h
+    · simp at h
+    · rename_i ts st2 h2
+      split at h
+      · simp at h
+      · rename_i sn st3 h3
+        split at h
+        · simp at h
+        · rename_i t st4 h4
+          simp only [Prod.mk.injEq, Except.ok.injEq] at h
+          obtain ⟨rfl, rfl⟩ := h
+          exact ⟨st1, st2, st3, loadRoot_ok h1, loadTimestamp_ok h2, loadSnapshot_ok h3, loadTargets_ok h4⟩
+
 end Tough.Client
